@@ -188,6 +188,15 @@ func (l *orderColumnsRow) compare(tp Type, lval, rval Column, reverse bool) int 
 	// different dynamic types (e.g. a JSON field that is a number in one row and
 	// a string in another) are not ordered: treat them as equal.
 	if reflect.TypeOf(lval) != reflect.TypeOf(rval) {
+		// A number column can mix integers and floats (sum() is an integer
+		// for the groups that only hold integers): they compare as numbers
+		if tp == TNUMBER {
+			lf, lok := orderNumberAsFloat(lval)
+			rf, rok := orderNumberAsFloat(rval)
+			if lok && rok {
+				return l.compareFloat(lf, rf, reverse)
+			}
+		}
 		return 0
 	}
 	switch tp {
@@ -200,6 +209,13 @@ func (l *orderColumnsRow) compare(tp Type, lval, rval Column, reverse bool) int 
 	default:
 		return 0
 	}
+}
+
+func orderNumberAsFloat(val Column) (float64, bool) {
+	if ival, ok := convertToInt(val); ok {
+		return float64(ival), true
+	}
+	return convertToFloat(val)
 }
 
 func (l *orderColumnsRow) compareBytes(lval, rval Column, reverse bool) int {
